@@ -597,7 +597,7 @@ def model_cc_get(d, key, empty, ty):
     if ty is int:
         t = v.strip()
         sign = 1
-        if t[:1] in "+-":
+        if t[:1] in ("+", "-"):
             sign = -1 if t[0] == "-" else 1
             t = t[1:]
         parts = t.split("_")
